@@ -61,7 +61,7 @@ LONG_FAMILIES = [
     ("bol-hrule", "", "", "-", ""),
     # URL rules (6 schemes, bracketed and bare)
     ("mailto-user", "", "mailto:", "ab.", "@h.org"), ("mailto-host", "", "mailto:u@", "h.", ""), ("mailto-link", "", "[mailto:u@", "h_", ""),
-    ("irc", "", "irc://", "c/", ""), ("irc-link", "", "[irc://", "c.", ""), ("news", "", "news:", "n.a", ""),
+    ("irc", "", "irc://", "c/", ""), ("irc-link", "", "[irc://", "c.", ""), ("news", "", "news:", "N.a0", ""),
     ("news-link", "", "[news:", "Zz", ""), ("ftp", "", "ftp://", "f/~", ""), ("ftp-link", "", "[ftp://", "f'", ""),
     ("http", "", "http://a.b/?q=", "a%20", ""), ("https", "", "https://", "x", ""), ("http-link", "", "[http://", "x/", ""),
     ("relurl-link", "", "[//", "r.", ""),
@@ -80,6 +80,9 @@ LONG_FAMILIES = [
     ("nonbmp", "", "", "\U0001F600", ""), ("unterminated-comment", "", "<!--", "x", ""), ("unterminated-tag", "", "<b ", "x", ""),
     ("unterminated-entity", "", "&", "a", ""),
 ]
+# families made of MANY small lexemes (one merged token / one gap): the extracted scanner is quadratic on them (unary offsets),
+# so they are judged by the tiling oracle on the real output only and left out of the model comparison
+LONG_MONITOR_ONLY = {"merged-text", "merged-nonascii", "ebad-run", "nonbmp"}
 # total lexeme lengths: around every width a length/offset field could have (8, 15, 16, 17 bits), and well beyond
 LONG_LENGTHS = {"quick": [65535, 65536, 65537, 70000, 131077], "thorough": [32767, 32768, 65535, 65536, 65537, 70000, 131071, 131072,
                                                                           131077, 196613, 262147, 1048583]}
@@ -182,7 +185,7 @@ def run_shard(job):
     a = open(spec["out"], "rb").read()
     n = a.count(b"\n")
     dis = []
-    if exe is None:         # translator failed: no current model; the monitor still ran
+    if exe is None or spec.get("no_model"):         # translator failed: no current model; the monitor still ran
         b = a
     else:
         with open(spec["inp"]) as fi, open(mout, "w") as fo:
@@ -207,7 +210,7 @@ def run_shard(job):
     hits = [json.loads(l) for l in open(spec["hits"]) if l.strip()]
     stats = hits.pop()
     flags = open(spec["flags"]).read()
-    return {"name": spec["name"], "n": n, "dis": dis, "hits": hits, "violations": stats["total_violations"], "flags": flags,
+    return {"name": spec["name"], "n": n, "tied": 0 if (exe is None or spec.get("no_model")) else n, "dis": dis, "hits": hits, "violations": stats["total_violations"], "flags": flags,
             "inp": spec["inp"], "out": spec["out"], "stats": stats}
 
 
@@ -279,7 +282,11 @@ def check(run):
     cdir = os.path.join(core.VERIF, "corpus", "C10")
     if os.path.isdir(cdir):
         for fn in sorted(os.listdir(cdir)):
-            corpus.append("".join(chr(c) for c in json.load(open(os.path.join(cdir, fn)))["text"]))
+            cobj = json.load(open(os.path.join(cdir, fn)))
+            if "text_rle" in cobj:      # long texts are stored in segment form [[unit code points, n], ...]
+                corpus.append(seg_text([["".join(chr(c) for c in u), n] for u, n in cobj["text_rle"]]))
+            else:
+                corpus.append("".join(chr(c) for c in cobj["text"]))
     nrand = 20000 if run.tier == "quick" else 400000
     # every boundary character of every class / literal of the generated rules, in every context
     btexts = []
@@ -297,10 +304,16 @@ def check(run):
     # long-lexeme family (harness builds the texts from segments and writes the model's input itself)
     lcases = long_cases(run.rng, run.tier)
     nshard_long = 12 if run.tier == "quick" else 32
+    tied = [c for c in lcases if c[0].split("/")[0] not in LONG_MONITOR_ONLY]
+    untied = [c for c in lcases if c[0].split("/")[0] in LONG_MONITOR_ONLY]
     for k in range(nshard_long):
-        part = lcases[k::nshard_long]
-        if part:
-            add_spec("long%02d" % k, mode="long", cases=[[[[ord(c) for c in u], n] for u, n in segs] for _l, segs in part])
+        for nm, cs, nomodel in (("long", tied, False), ("longmon", untied, True)):
+            part = cs[k::nshard_long]
+            if part and (not nomodel or k < 4):
+                if nomodel:
+                    part = cs[k::4]
+                add_spec("%s%02d" % (nm, k), mode="long", no_model=nomodel,
+                         cases=[[[[ord(c) for c in u], n] for u, n in segs] for _l, segs in part])
     # exhaustive shards
     shard = 45000 if run.tier == "quick" else 250000
     total_enum = 0
@@ -315,18 +328,19 @@ def check(run):
     nviol = 0
     dist = {"exhaustive_texts": total_enum, "random_texts": nrand, "class_boundary_texts": len(btexts), "corpus": len(corpus),
             "long_lexeme_texts": len(lcases), "long_lexeme_families": len(LONG_FAMILIES),
+            "long_lexeme_texts_monitor_only": len(untied),
             "long_lexeme_lengths": sorted(set(LONG_LENGTHS[run.tier] + SHORT_WIDTHS)),
             "text_length_max": 0, "token_count_hist": {}}
     hist = {}
     reported = 0
+    seen_fp = set()
     with concurrent.futures.ThreadPoolExecutor(max_workers=min(16, core.NPROC)) as ex:
         for res in ex.map(run_shard, [(s, exe, src) for s in specs]):
-            ncases += res["n"]
+            ncases += res["tied"]
             dis.extend(res["dis"])
             nviol += res["violations"]
             for h in res["hits"]:
                 if reported < 10:
-                    reported += 1
                     rep = {"what": h["what"]}
                     if h.get("min_rle") is not None:
                         msegs = [["".join(chr(c) for c in u), n] for u, n in h["min_rle"]]
@@ -339,7 +353,12 @@ def check(run):
                         rep["original_text_rle"] = h["text_rle"]
                     else:
                         rep["original_text"] = h["text"]
-                    run.hit("tiling:%s:%s" % (h["kind"], fp),
+                    fp = "tiling:%s:%s" % (h.get("min_kind") or h["kind"], fp)
+                    if fp in seen_fp:
+                        continue
+                    seen_fp.add(fp)
+                    reported += 1
+                    run.hit(fp,
                             "utoken.scan(%s) = %r: %s" % (mt, h["min_tokens"], h["min_what"] or h["what"]), rep)
             for k, v in res["stats"]["token_count_hist"].items():
                 hist[int(k)] = hist.get(int(k), 0) + v
